@@ -7,6 +7,7 @@ from ..canon import Snap
 from ..mon_output import mon_balance_output
 
 PROPERTY = 'C14'
+gen.OFFGRID = 0.12      # some asset windows start or end strictly between two grid points
 CASES = {'quick': 360, 'thorough': 2880}
 BUDGET_S = {'quick': 300, 'thorough': 2400}
 RULE = ('case = one portfolio solved through the real code twice: unsplit (setup_optim_problem) and split (setup_split_optim_problem, interval sizes '
